@@ -82,6 +82,9 @@ def referencing_queries():
         ("W Y ({a} | X)", None, [[Y, ["sub", [[a], [X]]]]]),
         ("W {a} X | Y {a}", None, [[a, X], [Y, a]]),
         ("W ({a}) ({b}) | {a}", None, [[["sub", [[a]]], ["sub", [[b]]]], [a]]),
+        # the same reference twice: first as a whole alternative, then next to another atom
+        ("W {a} | X {a}", None, [[a], [X, a]]),
+        ("W ({a} | Y) (X {a} | {b})", None, [[["sub", [[a], [Y]]], ["sub", [[X, a], [b]]]]]),
     ]
 
 
